@@ -2,10 +2,10 @@
 import os
 from tools.py2lean import gen_c01, gen_c06
 
-LEAN_TARGETS = ["EasyFEAVerif.Props.C01"]
-PROPS_MODULES = ["EasyFEAVerif.Props.C01"]
+LEAN_TARGETS = ["EasyFEAVerif.Props.C01", "EasyFEAVerif.Props.C01Flux"]
+PROPS_MODULES = ["EasyFEAVerif.Props.C01", "EasyFEAVerif.Props.C01Flux"]
 TRUSTED_EXTRA = [
-    "C01: the mesh-level link (free rows of a linear field vanish = discrete divergence theorem on a conforming mesh) is the hypothesis FluxClosed of patch_test_partial; it is evaluated numerically on every mesh the harness solves on, not proved for all meshes",
+    "C01: the mesh-level link (free rows of a linear field vanish = discrete divergence theorem on a conforming mesh) is the hypothesis FluxClosed of patch_test_partial; it is proved for the interior nodes of TRI3 fans and SEG2 chains (Props/C01Flux.lean: tri3_star_flux_closed, seg2_interior_flux_closed, with fluxClosed_of_gradient_sums) and evaluated numerically on every mesh the harness solves on; not proved for the other element types",
     "C01: layout of B, orientation of the Jacobian and of the physical derivatives are read from the source on every run (tools/py2lean/gen_c01.py) and pinned by rfl-theorems; numpy's matrix product and scipy's solve are trusted as documented",
 ]
 ASSUMPTIONS = ["the reduced matrix K_ff is injective once the boundary is prescribed (C02)"]
